@@ -8,6 +8,7 @@ import Proofs.DkgAgree
 import Proofs.DkgNonzero
 import Proofs.DkgJointAgree
 import Proofs.DkgJointEnd
+import Proofs.DkgEmit
 import Driver.Dkg
 
 /-! # C07 — DKG: honest participants agree on the verdict and on consistent keys
@@ -375,6 +376,33 @@ theorem joint_feldman_agreement (size threshold A B : Nat) (hs : size ≤ 256) (
     rA1 rA2 rA3 rB1 rB2 rB3 ba1 ba2 ba3 bb1 bb2 bb3 third KA KB ownA ownB
 
 open Proofs.DkgCommute Proofs.DkgAgree in
+/-- **what an honest dealer emits at `Start`** (the emission side of `OwnNet`): the broadcast of the verification vector
+    of the polynomial it drew and, to every other participant `i`, the private message carrying `a(i+1)` -/
+theorem dealer_start_outputs (size threshold me : Nat) (seed : Bytes) (s' : St O) (outs : List Out)
+    (h : Dkg.start ({ size := size, threshold := threshold, me := me, dealer := me } : St O) seed = (s', outs, .ok)) :
+    ∃ a, O.genPoly seed threshold = some a ∧ s'.vA = some (O.vecOfPoly size a) ∧
+      Out.bcast (tagVerifVec :: O.vecBytes a) ∈ outs ∧
+      ∀ i, i < size → i ≠ me → Out.send i (tagShare :: O.writeScalar (O.polyEval a (i + 1))) ∈ outs :=
+  start_outputs size threshold me seed s' outs h
+
+open Proofs.DkgCommute Proofs.DkgAgree in
+/-- **and a receiver accepts it**: under the laws tying the writers of the crypto record to its readers (`OpsLaws`:
+    the serialized vector parses back, a written share reads back, the Feldman check accepts `a(i+1)` against the
+    vector of `a`), the two messages of `dealer_start_outputs` are classified by `rcv`'s instance, in every state, as
+    the dealer's vector and `rcv`'s share, and are deliveries an honest dealer can cause - the round-one hypotheses
+    of `OwnNet` (`hvec`, `hshare` and the `RoundOK'` entries of the dealer's messages) hold for the dealer's own
+    emission -/
+theorem receiver_accepts_dealer_emission (size threshold dealer rcv : Nat) (hne : rcv ≠ dealer) (hr : rcv < size)
+    (a : List Nat) (L : OpsLaws O size threshold a) (ct : Bool) (t : St O)
+    (ht : CfgCT (fresh O size threshold rcv dealer) ct t) :
+    classify t (.bcast dealer (tagVerifVec :: O.vecBytes a)) = .vec (O.vecBytes a) ∧
+    AllowedK (honestOf size threshold a L rcv hr) t (.vec (O.vecBytes a)) ∧
+    classify t (.priv dealer (tagShare :: O.writeScalar (O.polyEval a (rcv + 1)))) =
+      .share (tagShare :: O.writeScalar (O.polyEval a (rcv + 1))) ∧
+    AllowedK (honestOf size threshold a L rcv hr) t (.share (tagShare :: O.writeScalar (O.polyEval a (rcv + 1)))) :=
+  emission_allowed size threshold dealer rcv hne hr a L ct t ht
+
+open Proofs.DkgCommute Proofs.DkgAgree in
 /-- the broadcasts of `A` an instance of another dealer ignores: everything but `A`'s complaint against that dealer -/
 theorem joint_irrelevant_broadcasts_ignored (s : St O) (hme : s.me ≠ s.dealer) (A : Nat) (hAd : A ≠ s.dealer)
     (hd : s.dealer < 256) (e : Dl) (h : irrelevant A s.dealer e = true) :
@@ -593,6 +621,17 @@ example :
   · intro sD _ _ v _; exact nv_own 1 0 (by decide) v
   · intro sD _ _ v _; exact nv_own 0 1 (by decide) v
 
+
+
+open Proofs.DkgAgree in
+/-- the laws are satisfiable: the toy record in which `Start` succeeds meets them for its polynomial -/
+example : OpsLaws toyJ 2 1 [1] := by
+  refine ⟨?_, rfl, fun _ => ?_, fun _ => rfl, fun _ _ => rfl⟩
+  · show (List.replicate (96 * 2) (0 : UInt8)).length = verifVectorSize * (1 + 1)
+    rw [List.length_replicate]; rfl
+  · show (List.replicate 32 (0 : UInt8)).length = shareSize
+    rw [List.length_replicate]; rfl
+
 end NonVacuity
 
 end Props.C07
@@ -625,3 +664,5 @@ end Props.C07
 #print axioms Props.C07.joint_execution_is_instancewise
 #print axioms Props.C07.joint_instances_after_start
 #print axioms Props.C07.joint_feldman_agreement
+#print axioms Props.C07.dealer_start_outputs
+#print axioms Props.C07.receiver_accepts_dealer_emission
